@@ -83,10 +83,18 @@ func runC17Conc(c Case, tier string, res *CaseResult) {
 	// when all members are on one fork the host shares ONE block context and chain configuration between the
 	// concurrently running instances (as a node does for the calls it serves against one block)
 	share := sameFork && r.Chance(70)
+	var sharedEips, sharedEipsWant []int
 	if share {
+		if r.Chance(60) {
+			// ... and one vm.Config, so one extra-EIP list (sometimes with a number the VM does not know in front)
+			sharedEipsWant = h.Pick(r, [][]int{{3855, 3860}, {9999, 3855, 3198}, {1153, 5656}, {3198, 7777, 3855}})
+		}
 		for i, t := range txs {
 			cp := *t
 			cp.env.Number = 0 // (everybody works on the shared context's block)
+			if sharedEipsWant != nil {
+				cp.env.ExtraEips = append([]int(nil), sharedEipsWant...) // (the run alone gets a list of its own)
+			}
 			txs[i] = &cp
 		}
 	}
@@ -99,8 +107,14 @@ func runC17Conc(c Case, tier string, res *CaseResult) {
 	var shared *h.SharedHost
 	if share {
 		shared = h.NewSharedHost(txs[0].env.Fork)
+		if sharedEipsWant != nil {
+			sharedEips = append([]int(nil), sharedEipsWant...)
+		}
 		for _, t := range txs {
 			t.shared = shared
+			if sharedEips != nil {
+				t.env.ExtraEips, t.env.ShareEips = sharedEips, true
+			}
 		}
 		res.Count("groups_sharing_host_objects", 1)
 	}
@@ -143,6 +157,9 @@ func runC17Conc(c Case, tier string, res *CaseResult) {
 				res.Fail(Key("concurrent-differs", diffRule(d)), fmt.Sprintf("execution %d of %d gives a different result when run concurrently with the others than when run alone", i, n), txs[i].desc, d)
 			}
 		}
+	}
+	if sharedEips != nil && fmt.Sprint(sharedEips) != fmt.Sprint(sharedEipsWant) {
+		res.Fail(Key("shared-host-object-modified", "eips"), fmt.Sprintf("the extra-EIP list of the vm.Config shared between instances was rewritten: %v, was %v", sharedEips, sharedEipsWant), txs[0].desc)
 	}
 	if shared != nil {
 		if d := shared.Changed(); d != "" {
@@ -188,6 +205,10 @@ func runC17Cancel(c Case, res *CaseResult) {
 	r := h.NewRNG(c.Seed)
 	kind := int(c.P[0])
 	k := uint64(c.P[1]) // cancel when the step counter reaches k (0 = before start)
+	resetAfterCancel := c.P[1] == -1 // cancelled between two transactions: the host then re-arms the EVM with Reset for the next one
+	if resetAfterCancel {
+		k = 0
+	}
 	fork := h.Pick(r, []h.Fork{h.Byzantium, h.Berlin, h.Shanghai, h.Cancun})
 	fs := h.NewForkSession(h.BaseWorld(loopProgram(kind)), h.EnvSpec{Fork: fork}, h.ForkOpts{Debug: true})
 	var steps atomic.Uint64
@@ -216,6 +237,9 @@ func runC17Cancel(c Case, res *CaseResult) {
 	if k == 0 {
 		once.Do(func() { close(trigger) })
 		<-done
+		if resetAfterCancel {
+			fs.EVM.Reset(fs.EVM.TxContext, fs.EVM.StateDB)
+		}
 	}
 	desc := fmt.Sprintf("loop kind %d fork=%s cancel at step %d", kind, fork, k)
 	ir := fs.Invoke(h.TxSpec{Entry: h.ECall, From: h.Sender, To: h.ContractAddr(0), Gas: 600_000, Value: new(big.Int)})
@@ -279,7 +303,7 @@ func init() {
 		Level: "exploration",
 		Race:  true,
 		Rule: "runs in the Go race-detector build (checkptr included). kind conc: N in {2,4,8,16,32} goroutines, each with its own EVM and StateDB, start behind a barrier and execute journal-heavy programs, journal call trees with real Aspects (shared provider and runtime pool), standard programs on different forks or on ONE fork with and without extra EIPs (the copy-on-write path of the shared instruction tables); every result (C16's full serialisation) must equal the sequential run; every race-detector report with a frame of artela-evm in either access stack is a violation (others are counted as external observations); an atomic gauge sampled in step callbacks reports the overlap actually achieved. " +
-			"kind cancel: looping contracts (JUMP loop, JUMPI-only loop, nested calls, recursion) are cancelled from another goroutine when the VM's step counter reaches k (k swept 0..2000 and random, incl. before the start, after the end, twice): no panic, bookkeeping closed, and in logical time a JUMP/JUMPI executed after Cancel() returned must be the last instruction of its frame; distinct_nontrivial = distinct (group composition / cancel landing) observations",
+			"kind cancel: looping contracts (JUMP loop, JUMPI-only loop, nested calls, recursion) are cancelled from another goroutine when the VM's step counter reaches k (k swept 0..2000 and random, incl. before the start, before the start with EVM.Reset in between, after the end, twice): no panic, bookkeeping closed, and in logical time a JUMP/JUMPI executed after Cancel() returned must be the last instruction of its frame; distinct_nontrivial = distinct (group composition / cancel landing) observations",
 		Assumptions: []string{"the race detector sees only executed accesses; schedules are sampled (3 repetitions per group), not enumerated", "promptness is judged on the VM's own step counter, never on wall-clock time; a hang would hit the worker watchdog and be reported as inconclusive"},
 		BatchSize:   func(tier string, n int) int { return (n + 31) / 32 },
 		Cases: func(seed uint64, tier string) []Case {
@@ -291,7 +315,7 @@ func init() {
 			for i := 0; i < ng; i++ {
 				cs = append(cs, Case{Kind: "conc", Seed: h.Mix(seed, 0xC17, uint64(i))})
 			}
-			ks := []int64{0, 1, 2, 3, 5, 8, 13, 21, 34, 55, 89, 144, 233, 377, 610, 987, 1597, 2000, 1 << 40}
+			ks := []int64{-1, 0, 1, 2, 3, 5, 8, 13, 21, 34, 55, 89, 144, 233, 377, 610, 987, 1597, 2000, 1 << 40}
 			for kind := 0; kind < 4; kind++ {
 				for _, k := range ks {
 					cs = append(cs, Case{Kind: "cancel", P: []int64{int64(kind), k}, Seed: h.Mix(seed, 0xC17C, uint64(kind), uint64(k))})
